@@ -145,6 +145,9 @@ func c14(e *Env) {
 	}
 	// ---- exhaustive short strings
 	maxLen := e.N(2, 3)
+	if isAbsentChild(e) {
+		maxLen = 1
+	}
 	type job struct{ first int }
 	e.Par(256, func(b0 int) {
 		for ai := range algs {
@@ -214,9 +217,33 @@ func c14(e *Env) {
 			judge(&algs[ai], data, fmt.Sprintf("long:%d×%s", l.n, l.fill))
 		}
 	})
+	if isAbsentChild(e) {
+		// scenario: a service is removed, frames that use it are encoded, then the name is looked up again:
+		// nothing may have appeared under the name that does not compute the published definition
+		s := e.S
+		for _, a := range algs {
+			codec.Remove(a.name)
+			for _, t := range s.Order {
+				if fi := frameOf(t); fi != nil && fi.alg == a.name {
+					g := &gen.Gen{S: e.S, C: e.C, R: gen.NewRng(e.Seed, "C14-absent", t.QName), O: &gen.Opts{}}
+					for k := 0; k < 3; k++ {
+						LibEncode(g.Value(t), new(bytes.Buffer))
+					}
+				}
+			}
+			if _, ok := codec.Get(a.name); ok {
+				for _, in := range [][]byte{[]byte("123456789"), {0xFF, 0xFF, 0x01}, bytes.Repeat([]byte{0xA7}, 1000)} {
+					judge(&a, in, "after Remove("+a.name+") and frame encodes something is registered under the name again")
+				}
+			}
+		}
+	}
 	r.Evals(evals)
 	r.DistinctAdd(distinct)
 	r.Exhaustive(false)
+	if !isAbsentChild(e) {
+		runAbsentChild(e)
+	}
 	r.Set("exhaustive_subspace", fmt.Sprintf("all byte strings of length <= %d for each of the 4 services", maxLen))
 	r.Set("long_inputs", longs)
 	r.Sample(map[string]any{"algorithm": "SZSE_BIN", "input": "8421505 × ff", "reference": ref.SumMod256(bytes.Repeat([]byte{0xFF}, 8421505))})
